@@ -36,10 +36,45 @@ pub struct Def {
     pub attrs: Vec<String>,
 }
 
+/// the language's lexical rule, written independently of the compiler's lexer: outside a string literal `//`
+/// starts a comment that runs to the end of the line; comments are not part of any construct (an entry of
+/// `Def::attrs` / of the probe catalogue is the attribute as written TOGETHER with the layout that follows it
+/// up to the next token, which is what the attribute's syntax node holds)
+pub fn spec_strip_comments(text: &str) -> String {
+    let mut out = String::new();
+    let cs: Vec<char> = text.chars().collect();
+    let (mut i, mut in_str) = (0, false);
+    while i < cs.len() {
+        let c = cs[i];
+        if in_str {
+            out.push(c);
+            if c == '\\' && i + 1 < cs.len() {
+                out.push(cs[i + 1]);
+                i += 1;
+            } else if c == '"' {
+                in_str = false;
+            }
+        } else if c == '"' {
+            in_str = true;
+            out.push(c);
+        } else if c == '/' && cs.get(i + 1) == Some(&'/') {
+            while i < cs.len() && cs[i] != '\n' {
+                i += 1;
+            }
+            continue;
+        } else {
+            out.push(c);
+        }
+        i += 1;
+    }
+    out
+}
+
 /// what `derive.rs::parse_derive_targets` + `find_derive_attr` are documented to do, written independently:
 /// a trait is derived iff SOME attribute of the item is `#[derive(…)]` with a non-empty target list that names it
 pub fn spec_derives(attrs: &[String], tr: &str) -> bool {
     attrs.iter().any(|a| {
+        let a = spec_strip_comments(a);
         let t = a.trim();
         let Some(inner) = t.strip_prefix("#[").and_then(|x| x.strip_suffix(']')) else { return false };
         let Some(rest) = inner.trim().strip_prefix("derive") else { return false };
@@ -50,7 +85,7 @@ pub fn spec_derives(attrs: &[String], tr: &str) -> bool {
 
 /// a random way of writing attributes whose known targets are exactly (json, string)
 pub fn spell_attrs(rng: &mut Rng, json: bool, string: bool) -> Vec<String> {
-    let noise_attr = ["#[inline]", "#[allow(dead_code)]", "#[foo]", "#[derive()]", "#[derive(Debug)]", "#[derive(Clone, Eq)]", "#![derive(ToJson)]", "#[doc = \"x\"]", "#[derived(ToJson)]", "#[derive]"];
+    let noise_attr = ["#[inline]", "#[allow(dead_code)]", "#[foo]", "#[derive()]", "#[derive(Debug)]", "#[derive(Clone, Eq)]", "#![derive(ToJson)]", "#[doc = \"x\"]", "#[derived(ToJson)]", "#[derive]", "#[doc = \"// not a comment\"]"];
     let mut units: Vec<Vec<&str>> = Vec::new(); // each = the targets of one derive attribute
     let known: Vec<&str> = [("ToJson", json), ("ToString", string)].iter().filter(|x| x.1).map(|x| x.0).collect();
     match rng.below(5) {
@@ -76,11 +111,14 @@ pub fn spell_attrs(rng: &mut Rng, json: bool, string: bool) -> Vec<String> {
             let d = ts[0].clone();
             ts.push(d); // the same target twice in one attribute
         }
-        let text = match rng.below(4) {
+        let text = match rng.below(6) {
             0 => format!("#[derive({})]", ts.join(", ")),
             1 => format!("#[derive({})]", ts.join(",")),
             2 => format!("#[ derive ( {} ) ]", ts.join(" , ")),
-            _ => format!("#[derive({},)]", ts.join(", ")),
+            3 => format!("#[derive({},)]", ts.join(", ")),
+            // one target per line, each followed by a comment (which may itself look like a target)
+            4 => format!("#[derive(\n{})]", ts.iter().map(|t| format!("    {}, // {}\n", t, rng.pick(&["serialise", "ToJson", "ToString, ToJson", ")]"]))).collect::<String>()),
+            _ => format!("#[derive( // {}\n    {})]", rng.pick(&["derives", "ToString", "ToJson)]"]), ts.join(", ")),
         };
         out.push(text);
     }
@@ -89,9 +127,24 @@ pub fn spell_attrs(rng: &mut Rng, json: bool, string: bool) -> Vec<String> {
         let pos = rng.below(out.len() + 1);
         out.insert(pos, rng.pick(&noise_attr).to_string());
     }
+    // the layout that follows each attribute up to the next token (the attribute's syntax node holds it)
+    for a in out.iter_mut() {
+        if rng.chance(1, 2) {
+            a.push('\n');
+        } else {
+            a.push_str(LAYOUTS[rng.below(LAYOUTS.len())]);
+        }
+    }
     debug_assert!(spec_derives(&out, "ToJson") == json && spec_derives(&out, "ToString") == string);
     out
 }
+
+/// what may stand between an attribute and the next token: line ends, blanks, the next token on the same
+/// line, comments (after the attribute on its line, on lines of their own, looking like attributes or targets)
+pub const LAYOUTS: &[&str] = &[
+    "\n", " ", "\n\n", " \t\n", " // serialised for the log\n", "\n// a comment line\n", " // a\n// b\n\n", "// glued\n",
+    " // ]\n", " // #[derive(ToString)]\n", "\n// #[derive(ToJson)]\n", " // , ToJson)]\n", "\n    // indented\n    ",
+];
 
 #[derive(Clone, Debug)]
 pub enum V {
@@ -419,7 +472,7 @@ pub fn program_src(rng: &mut Rng, cfg: &Cfg, defs: &[Def], vals: &[(usize, V)]) 
             writeln!(src, "{}", attr).unwrap();
         } else {
             for a in &d.attrs {
-                writeln!(src, "{}", a).unwrap();
+                write!(src, "{}", a).unwrap();
             }
         }
         match &d.kind {
@@ -755,9 +808,27 @@ pub fn attr_probe_cases() -> Vec<(String, String, bool, String, S)> {
         vec!["#[ derive ( ToString , ToJson ) ]"], vec!["#![derive(ToJson)]"], vec!["#![derive(ToJson)]", t], vec!["#[derived(ToJson)]", t],
         vec!["#[derive(ToJson)(ToString)]"], vec!["#[derive[ToJson]]"], vec![],
     ];
+    // an entry = each attribute as written TOGETHER with the layout up to the next token; the first block is the
+    // catalogue above with every attribute on its own line, then (a) a core of attribute lists under every layout
+    // of LAYOUTS, (b) attributes with comments between their own tokens
+    let mut entries: Vec<Vec<String>> = catalogue.iter().map(|attrs| attrs.iter().map(|x| format!("{}\n", x)).collect()).collect();
+    let jt = "#[derive(ToJson, ToString)]";
+    let core: Vec<Vec<&str>> = vec![vec![j], vec![t], vec![jt], vec![j, t], vec!["#[foo]", j], vec![t, "#[foo]"], vec!["#[derive(Debug)]"], vec!["#[foo]"]];
+    for attrs in &core {
+        for lay in LAYOUTS.iter().filter(|x| **x != "\n") {
+            entries.push(attrs.iter().map(|x| format!("{}{}", x, lay)).collect());
+        }
+    }
+    let inner: Vec<Vec<&str>> = vec![
+        vec!["#[derive(ToJson, // json\n    ToString)]\n"], vec!["#[derive( // everything\n    ToJson,\n    ToString,\n)]\n"], vec!["#[derive(ToJson // , ToString\n)]\n"],
+        vec!["#[derive(ToString, // ToJson\n)]\n"], vec!["#[ // c\n derive(ToJson)]\n"], vec!["#[derive // c\n (ToString)]\n"], vec!["#[derive(ToJson) // c\n]\n"],
+        vec!["#[derive(ToJson, // )]\n ToString)]\n"], vec!["#[doc = \"// not a comment\"] ", "#[derive(ToJson)]\n"], vec!["#[doc = \"a\\\"// b\"]\n", "#[derive(ToString)] // c\n"],
+    ];
+    entries.extend(inner.iter().map(|e| e.iter().map(|x| x.to_string()).collect::<Vec<String>>()));
+    let n_plain = catalogue.len();
     let mut v = Vec::new();
-    for (ci, attrs) in catalogue.iter().enumerate() {
-        let owned: Vec<String> = attrs.iter().map(|x| x.to_string()).collect();
+    for (ci, owned) in entries.iter().enumerate() {
+        let owned: Vec<String> = owned.clone();
         for kind in ["struct", "enum"] {
             let (item, value, vj, vs) = if kind == "struct" {
                 ("struct In {\n    s: string,\n    n: int32,\n}\n", "In { s: \"a\\\"b\", n: (-3) }", "{\"s\":\"a\\\"b\",\"n\":-3}".to_string(), "In { s: a\"b, n: -3 }".to_string())
@@ -766,12 +837,16 @@ pub fn attr_probe_cases() -> Vec<(String, String, bool, String, S)> {
             };
             for (tr, method, direct) in [("ToJson", "to_json", &vj), ("ToString", "to_string", &vs)] {
                 let has = spec_derives(&owned, tr);
-                let attr_text: String = attrs.iter().map(|a| format!("{}\n", a)).collect();
+                let attr_text: String = owned.concat();
                 // (1) the method on a value of the item
                 let src = format!("{}{}\nfn main() -> unit {{\n    let v = {};\n    string_println(v.{}())\n}}\n", attr_text, item, value, method);
                 let probe = tagged("attrprobe", owned.iter().map(|x| S::A(x.clone())).collect());
                 v.push((format!("attr:{}:{}:{}:direct", ci, kind, method), src, has, format!("{}\n", direct), probe.clone()));
                 // (2) the method of an enclosing derived type, whose generated body calls the item's
+                //     (for the plain catalogue and the comment-inside entries; the layout block is (1) only)
+                if ci >= n_plain && ci < n_plain + core.len() * (LAYOUTS.len() - 1) {
+                    continue;
+                }
                 let outer = if tr == "ToJson" { format!("{{\"i\":{},\"k\":1}}", vj) } else { format!("Out {{ i: {}, k: 1 }}", vs) };
                 let src = format!("{}{}\n#[derive({})]\nstruct Out {{\n    i: In,\n    k: int32,\n}}\n\nfn main() -> unit {{\n    let v = Out {{ i: {}, k: 1 }};\n    string_println(v.{}())\n}}\n", attr_text, item, tr, value, method);
                 v.push((format!("attr:{}:{}:{}:nested", ci, kind, method), src, has, format!("{}\n", outer), probe));
@@ -779,6 +854,125 @@ pub fn attr_probe_cases() -> Vec<(String, String, bool, String, S)> {
         }
     }
     v
+}
+
+fn collect_callfns(s: &S, out: &mut Vec<String>) {
+    if let S::L(items) = s {
+        if let [S::A(tag), S::A(name), ..] = items.as_slice() {
+            if tag == "callfn" && !out.contains(name) {
+                out.push(name.clone());
+            }
+        }
+        for it in items {
+            collect_callfns(it, out);
+        }
+    }
+}
+
+/// every function the REAL generated code calls by its bare name, per derived method and leaf type: one
+/// definition per primitive type goes through the real `parser -> lower -> derive::expand`, the names are
+/// read off the impl blocks it appended (nothing here lists the helpers)
+pub fn called_helpers() -> Vec<(String, String, FT)> {
+    let mut prims = vec![FT::Unit, FT::Bool, FT::Str, FT::Float(32), FT::Float(64)];
+    for b in [8u32, 16, 32, 64] {
+        prims.push(FT::Int(b, true));
+        prims.push(FT::Int(b, false));
+    }
+    let mut v = Vec::new();
+    for ft in prims {
+        let src = format!("#[derive(ToJson, ToString)]\nstruct In {{\n    f: {},\n}}\n", ft_src(&[], &ft));
+        let Some(S::L(impls)) = derived_impls(&src) else { continue };
+        for imp in &impls {
+            let S::L(items) = imp else { continue };
+            for m in items.iter().skip(2) {
+                let S::L(mi) = m else { continue };
+                let Some(S::A(method)) = mi.get(1) else { continue };
+                let mut names = Vec::new();
+                collect_callfns(m, &mut names);
+                for h in names {
+                    v.push((method.clone(), h, ft.clone()));
+                }
+            }
+        }
+    }
+    v
+}
+
+/// hygiene of the generated code against the PACKAGE it is expanded in: for every (derived method, helper it
+/// calls, leaf type) a two-package project whose library package defines the derived type next to a function
+/// of the package that is spelled like the helper (same signature / another signature), plus two controls (no
+/// such function; a function whose name merely starts like the helper). `Lib::show()` returns the derived
+/// method's text for one value; Main prints it. Expected: the text of the declarative writers.
+/// (id, files, expected stdout, method, helper, shape)
+pub fn helper_capture_cases(thorough: bool) -> Vec<(String, Vec<(String, String)>, String, String, String, String, String)> {
+    let mut v = Vec::new();
+    let mut rng = Rng::new(0xC18);
+    for (k, (method, helper, ft)) in called_helpers().into_iter().enumerate() {
+        let val = match &ft {
+            FT::Unit => V::Unit,
+            FT::Bool => V::Bool(true),
+            FT::Int(_, s) => V::Int(if *s { -7 } else { 7 }),
+            FT::Float(b) => V::Float(1.5, if *b == 32 { "1.5f32".into() } else { "1.5".into() }),
+            _ => V::Str("a\"b\\c".into()),
+        };
+        for (ki, kind) in ["struct", "enum"].iter().enumerate() {
+            if !thorough && (k + ki) % 2 == 1 {
+                continue;
+            }
+            let def = Def {
+                name: "In".into(),
+                kind: if *kind == "struct" { Kind::Struct(vec![("f".into(), ft.clone())]) } else { Kind::Enum(vec![("A".into(), vec![]), ("B".into(), vec![FT::Int(32, true), ft.clone()])]) },
+                attrs: Vec::new(),
+            };
+            let defs = vec![def];
+            let value = if *kind == "struct" { V::Struct(0, vec![val.clone()]) } else { V::Enum(0, 1, vec![V::Int(3), val.clone()]) };
+            let cfg = Cfg { all_strings: false, all_prims: true, capturing_names: false, floats: true, nonfinite: false, to_json: method == "to_json", to_string: method == "to_string" };
+            let item = program_src(&mut rng, &cfg, &defs, &[]);
+            let item = &item[..item.find("fn main()").unwrap_or(item.len())];
+            let want = if method == "to_json" { spec_json(&defs, &FT::Named(0), &value) } else { spec_string(&defs, &FT::Named(0), &value) };
+            let tsrc = ft_src(&defs, &ft);
+            for shape in ["same-signature", "other-signature", "control-absent", "control-longer-name"] {
+                let userfn = match shape {
+                    "same-signature" => format!("fn {}(x: {}) -> string {{\n    \"captured\"\n}}\n\n", helper, tsrc),
+                    "other-signature" => format!("fn {}() -> int32 {{\n    0\n}}\n\n", helper),
+                    "control-longer-name" => format!("fn {}_of(x: {}) -> string {{\n    \"captured\"\n}}\n\n", helper, tsrc),
+                    _ => String::new(),
+                };
+                let lib = format!("package Lib\n\n{}{}fn show() -> string {{\n    {}.{}()\n}}\n", userfn, item, val_src(&mut rng, &defs, &FT::Named(0), &value), method);
+                let main = "package Main\nimport Lib\n\nfn main() -> unit {\n    string_println(Lib::show())\n}\n".to_string();
+                v.push((
+                    format!("helper:{}:{}:{}:{}:{}", method, helper, tsrc, kind, shape),
+                    vec![("Lib/lib.gom".to_string(), lib), ("main.gom".to_string(), main)],
+                    format!("{}\n", want),
+                    method.clone(),
+                    helper.clone(),
+                    shape.to_string(),
+                    case_sexp(&cfg, &defs, &[]).to_text(),
+                ));
+            }
+        }
+    }
+    v
+}
+
+/// a project of several files in a directory of its own; the entry is `main.gom`
+fn emit_project(id: &str, dir: &std::path::Path, files: &[(String, String)], out: &mut String) {
+    let _ = std::fs::remove_dir_all(dir);
+    let mut all = String::new();
+    for (rel, text) in files {
+        let p = dir.join(rel);
+        let _ = std::fs::create_dir_all(p.parent().unwrap());
+        let _ = std::fs::write(&p, text);
+        write!(all, "// ---- {}\n{}", rel, text).unwrap();
+    }
+    writeln!(out, "{}\tSRC\t{}", id, esc_line(&all)).unwrap();
+    let entry = dir.join("main.gom");
+    let src = std::fs::read_to_string(&entry).unwrap_or_default();
+    match util::compile_path(&entry, &src) {
+        Outcome::Ok(c) => c01::dump_case(id, &c, out),
+        Outcome::Err(stage, msgs) => writeln!(out, "{}\tREJECT\t{}\t{}", id, stage, esc_line(&msgs.join(" | "))).unwrap(),
+        Outcome::Panic(m) => writeln!(out, "{}\tPANIC\t{}", id, esc_line(&m)).unwrap(),
+    }
 }
 
 fn emit(id: &str, dir: &std::path::Path, src: &str, out: &mut String) {
@@ -864,7 +1058,19 @@ pub fn main(args: &util::Args) {
         for d in defs.iter_mut() {
             if stream == "attrs" || arng.chance(1, 4) {
                 d.attrs = spell_attrs(&mut arng, cfg.to_json, cfg.to_string);
-                let derives = d.attrs.iter().filter(|a| a.contains("derive") && !a.starts_with("#!") && !a.contains("derived") && a.contains('(') && !a.contains("()")).count();
+                let derives = d.attrs.iter().map(|a| spec_strip_comments(a)).filter(|a| a.contains("derive") && !a.starts_with("#!") && !a.contains("derived") && a.contains('(') && !a.contains("()")).count();
+                for a in &d.attrs {
+                    let code = spec_strip_comments(a);
+                    let tail = &code[code.rfind(']').map(|k| k + 1).unwrap_or(0)..];
+                    if code != *a {
+                        let first_comment = a.bytes().zip(code.bytes()).position(|(x, y)| x != y).unwrap_or(code.len());
+                        let after = code.rfind(']').is_some_and(|k| first_comment > k);
+                        *attr_hist.entry(if after { "comment-after-attribute" } else { "comment-inside-attribute" }).or_default() += 1;
+                    }
+                    if !tail.contains('\n') {
+                        *attr_hist.entry("next-token-on-the-same-line").or_default() += 1;
+                    }
+                }
                 *attr_hist.entry(if derives >= 3 { "three-or-more-derive-attributes" } else if derives == 2 { "two-derive-attributes" } else { "one-derive-attribute" }).or_default() += 1;
                 if d.attrs.len() > derives {
                     *attr_hist.entry("with-non-derive-or-empty-attribute").or_default() += 1;
@@ -965,6 +1171,12 @@ pub fn main(args: &util::Args) {
         }
         emit(&id, &dir, &src, &mut out);
     }
+    let mut helper_hist: std::collections::BTreeMap<String, usize> = Default::default();
+    for (k, (id, files, want, method, helper, shape, case)) in helper_capture_cases(args.tier == "thorough").into_iter().enumerate() {
+        *helper_hist.entry(format!("{}:{}", method, helper)).or_default() += 1;
+        writeln!(out, "{}\tHELPER\t{}\t{}\t{}\t{}\t{}", id, esc_line(&want), method, helper, shape, case).unwrap();
+        emit_project(&id, &dir.join(format!("helper{}", k)), &files, &mut out);
+    }
     for (k, (kind, src)) in reject_cases().into_iter().enumerate() {
         let id = format!("rej:{}:{}", k, kind);
         writeln!(out, "{}\tEXPECTREJECT\t{}", id, kind).unwrap();
@@ -972,11 +1184,12 @@ pub fn main(args: &util::Args) {
     }
     writeln!(
         out,
-        "#FEATS\tstring-classes: {} | field-types: {} | special-field-names: {} | attribute-spellings: {}",
+        "#FEATS\tstring-classes: {} | field-types: {} | special-field-names: {} | attribute-spellings: {} | helpers-called-by-generated-code(projects): {}",
         CLASSES.iter().zip(&hist).map(|((k, _), v)| format!("{}={}", k, v)).collect::<Vec<_>>().join(" "),
         ft_hist.iter().map(|(k, v)| format!("{}={}", if k.is_empty() { "named" } else { k }, v)).collect::<Vec<_>>().join(" "),
         name_hist.iter().map(|(k, v)| format!("{}={}", k, v)).collect::<Vec<_>>().join(" "),
-        attr_hist.iter().map(|(k, v)| format!("{}={}", k, v)).collect::<Vec<_>>().join(" ")
+        attr_hist.iter().map(|(k, v)| format!("{}={}", k, v)).collect::<Vec<_>>().join(" "),
+        helper_hist.iter().map(|(k, v)| format!("{}={}", k, v)).collect::<Vec<_>>().join(" ")
     )
     .unwrap();
     let _ = std::fs::remove_dir_all(&dir);
